@@ -99,6 +99,16 @@ theorem age_monotone (parse : Str → Option Int) (s : Spec.Stored) (t1 t2 : Int
 theorem model_age_is_rfc_age (g : Glue) (now : Int) (e : Entry) (hT : TimesOK e) :
     currentAge g now e = Spec.currentAge g.parseTime (Spec.storedOfEntry e) now := age_eq g now e hT
 
+/-- A directive given more than once: the parser keeps the FIRST occurrence (RFC 9111 §4.2.1), for
+    every directive other than no-cache and whatever the later occurrence says — a later
+    `max-age=31536000` cannot extend a `max-age=0` (the pinned parser kept the last one). -/
+theorem first_occurrence_is_kept (m : Directives) (k prev v : Str) (hk : k ≠ sNoCache)
+    (hp : alookup k m = some prev) : directiveInsert m k v = m := by
+  unfold directiveInsert; simp [hp, hk]
+
+set_option maxRecDepth 8000 in
+example : (parseCC [(sCacheControl, str% "max-age=0, max-age=9")]).maxAge = some 0 := by decide
+
 /-- Non-vacuity: a concrete exchange that is answered from the store without origin contact
     (so the hypotheses of the main theorem are satisfiable, with a response other than the 504). -/
 def exGlue : Glue := ⟨fun s => if s = (str% "D") then some 100 else none⟩
